@@ -186,8 +186,8 @@ Section RunField.
   Definition rd (l : list T) : list E := stored_dense repr l.
   Definition rs (s : list (nat * T)) : list (Z * E) := stored_sparse repr s.
   (* SparsePolynomial::from_coefficients_vec on raw terms with pairwise distinct degrees.  Zero-coefficient terms
-     denote nothing: they are dropped first (the Rust constructor only pops them at the end of the raw list --
-     DEFECT-1 in props/C19/NOTES.md; the generator puts them only there) *)
+     denote nothing: they are dropped first, wherever they are in the raw list (F28, fixed in /repo: the Rust
+     constructor used to pop them only at the end of the list) *)
   Definition sp_in (l : list Z) : res (list (nat * T)) :=
     s_from_vec F (filter (fun t => negb (is0 F (snd t))) (spairs l)).
   Definition pres (r : res (list (list Z))) : list (list Z) :=
